@@ -16,7 +16,7 @@ from .common import Discard, run_alg, well_formed, dataset_tags
 
 ID = "C04"
 ENVS = ["absent", "present", "broken", "absent"]
-RUNS = {"quick": 2400, "thorough": 40000}
+RUNS = {"quick": 16000, "thorough": 200000}
 RULE = ("case = (dataset, valid scheme, 3-5 algorithm calls each with RNG schedule, return_at_most_one flag and a read "
         "history over features[KEMENY_SCORE] / kemeny_score / description() / str()); distinct = distinct case digest; "
         "non-trivial = at least one reported score of a consensus over >= 2 elements was compared with the reference")
@@ -89,7 +89,7 @@ def run_case(case, ctx):
                 problem = f"not a number: {type(v).__name__}"
             elif math.isnan(float(v)):
                 problem = "NaN"
-            elif float(v) < 0:
+            elif float(v) < -1e-6:  # rounding noise within the statement's own 1e-6 tolerance is not "negative"
                 problem = f"negative: {float(v)}"
             else:
                 worst = max(abs(float(v) - r) for r in refs)
